@@ -21,7 +21,7 @@ def sh(cmd, cwd=None, env=None, timeout=3600):
 
 
 def confirm(name, src, patch):
-    pid = name.split("-")[0].rstrip("bcdefghi")
+    pid = name.split("-")[0].rstrip("bcdefghij")
     wt = "/tmp/seedchk/%s" % name
     bd = "/tmp/seedchk/build-%s" % name
     shutil.rmtree(bd, ignore_errors=True)
